@@ -423,4 +423,59 @@ theorem seqRef_pending {st : Store} (hr : SeqRef st) (hw : WF st.led) (hf : Fifo
   congr 1
   rw [Bool.eq_iff_iff, List.contains_iff_mem, List.contains_iff_mem, mem_receivedBy]
 
+/-! ### pooled receives name confirmed sends -/
+
+theorem poolEv_marker {b v v' : Store} {e : Ev} (h : poolEv b v e = .ok v') :
+    ∀ m ∈ v'.led.recv, m ∈ v.led.recv ∨ (findSend b.led.sends m.2).isSome = true := by
+  obtain ⟨hc, _, hs, _⟩ := poolEv_ok h
+  intro m hm
+  rw [(step_frame hs).2.2, List.mem_append] at hm
+  rcases hm with hm | hm
+  · right
+    cases e with
+    | usend src dst tok amt hh call => simp [Ev.markers] at hm
+    | urecv a hh =>
+      simp only [Ev.markers, List.mem_singleton] at hm
+      subst hm
+      simp only [poolCheck] at hc
+      split at hc
+      · assumption
+      · cases hc
+    | crecv c hh st ds =>
+      simp only [Ev.markers, List.mem_singleton] at hm
+      subst hm
+      simp only [poolCheck] at hc
+      split at hc
+      · assumption
+      · cases hc
+  · exact Or.inl hm
+
+theorem poolAll_marker {b : Store} : ∀ {es : List Ev} {v v' : Store}, poolAll b v es = .ok v' →
+    ∀ m ∈ v'.led.recv, m ∈ v.led.recv ∨ (findSend b.led.sends m.2).isSome = true
+  | [], v, v', h, m, hm => by simp only [poolAll, Except.ok.injEq] at h; subst h; exact Or.inl hm
+  | e :: es, v, v', h, m, hm => by
+    obtain ⟨v1, h1, h2⟩ := poolAll_cons_ok h
+    rcases poolAll_marker h2 m hm with h3 | h3
+    · exact poolEv_marker h1 m h3
+    · exact Or.inr h3
+
+theorem poolRun_marker {b : Store} : ∀ {p : Pool} {v w : Store}, poolRun b v p = .ok w →
+    ∀ m ∈ w.led.recv, m ∈ v.led.recv ∨ (findSend b.led.sends m.2).isSome = true
+  | [], v, w, h, m, hm => by simp only [poolRun, Except.ok.injEq] at h; subst h; exact Or.inl hm
+  | (a, evs) :: rest, v, w, h, m, hm => by
+    simp only [poolRun] at h
+    split at h
+    · cases h
+    · rename_i v1 h1
+      rcases poolRun_marker h m hm with h3 | h3
+      · exact poolAll_marker h1 m h3
+      · exact Or.inr h3
+
+theorem findSend_isSome_mem {l : List Send} {h : Hash} (hs : (findSend l h).isSome = true) : h ∈ l.map (·.hash) := by
+  cases hf : findSend l h with
+  | none => rw [hf] at hs; cases hs
+  | some x =>
+    obtain ⟨hx, hh⟩ := findSend_some hf
+    exact List.mem_map.2 ⟨x, hx, hh⟩
+
 end ZV.LedgerNode
